@@ -183,6 +183,7 @@ def check(ctx):
     ctx.ob("R06.4", f"{SM}|cancel-clears-the-flag-poll-reads", bool(rd) and bool(wr), f"{cb.f['file']}:{cb.f['line']}", "cancel_stream writes keep_streams_running[..], keep_stream_running reads the same array")
     # ------------------------------------------------------------------ R06.6 helpers the close machinery stands on
     check_sweeps(ctx)
+    check_multi_pending_counts(ctx)
     kb2 = Body(fx.fn(SM + "::keep_stream_running")); kd2 = D.Dag(kb2)
     idx = [(b, c) for (b, c) in kb2.calls if c.get("fname") in ("get_unchecked", "index")]
     ok = len(idx) == 1 and strip_casts(kd2.expr(idx[0][1]["args"][1]))[:2] == ("param", 2) and "keep_streams_running" in str(kd2.expr(idx[0][1]["args"][0]))
@@ -213,6 +214,54 @@ def check(ctx):
                 ok = f.get("impl_self") == STREAM and f.get("impl_trait") == "std::ops::Drop"
                 ctx.ob("R06.5", f"{f['key']}|calls|drop_resources", ok, body.loc(b), "the running-stream count drops only when the stream object itself is dropped (Drop for MutinyStream): the executor drops it after the pipeline finished")
     ctx.floor("R06.1", 12); ctx.floor("R06.3", 13); ctx.floor("R06.4", 12); ctx.floor("R06.5", 1); ctx.floor("R06.6", 14)
+
+
+def check_multi_pending_counts(ctx):
+    """R06.7 what flush / close wait for on a Multi: pending_items_count is the longest backlog over the LIVE listeners -- the walk over the live list goes on while
+    the entry is a listener id (stops at the u32::MAX sentinel, not before), reads the queue of that very id, and aggregates with max.  A count that stops at the
+    first live entry, reads another queue or takes the minimum answers 0 while events are still buffered: close returns before they were processed."""
+    fx = ctx.fx
+    n = 0
+    for name, path in R.CHANNELS.items():
+        if not name.startswith("multi"): continue
+        k = f"{path} as {R.T_COMMON}::pending_items_count"
+        f = fx.fn_opt(k)
+        if f is None: continue
+        n += 1
+        body = Body(f); dg = D.Dag(body)
+        site = f"{f['file']}:{f['line']}"
+        names = [c.get("fname") for (_, c) in body.calls]
+        kids = [g for g in fx.fns if g["key"].startswith(k + "::{closure#")]
+        ok_s = True; why = ""
+        n_sent = 0
+        for g in kids:
+            gb = Body(g); gd = D.Dag(gb)
+            r0 = strip_casts(gd.local(0))
+            if r0[0] == "bin" and r0[1] in ("Eq", "Ne") and any((lambda z: z == ("const", 0xFFFFFFFF) or (z[0] == "gconst" and str(z[1]).endswith("u32::MAX")))(strip_casts(z)) for z in (r0[2], r0[3])):
+                n_sent += 1
+                user = [c.get("fname") for (_, c) in body.calls if any(dg.expr(a) == ("closure", g["key"]) for a in c["args"])]
+                keep_live = (r0[1] == "Ne" and set(user) <= {"take_while", "filter"}) or (r0[1] == "Eq" and set(user) <= {"skip_while"} and False)
+                if not keep_live: ok_s = False; why = f"`{show(r0)[:60]}` handed to {user}"
+        for x in body.reachable:
+            se = util.sentinel_edges(body, dg, x)
+            if se and se[0] != se[1]:
+                n_sent += 1
+                h = [h_ for h_, bl in body.loops.items() if x in bl]
+                if h and se[1] not in body.loops[min(h, key=lambda q: len(body.loops[q]))]: ok_s = False; why = f"the walk leaves the loop on a live entry at {body.loc(x)}"
+        ctx.ob("R06.7", f"{k}|walks-the-live-listeners", ok_s and n_sent >= 1, site, "the walk over the live list continues on listener ids and stops only at the sentinel" if ok_s and n_sent else (why or "no sentinel test found"))
+        agg_bad = [x for x in names if x in ("min", "min_by", "min_by_key", "sum", "product", "last", "nth", "next")]
+        ctx.ob("R06.7", f"{k}|aggregates-with-max", ("max" in names or bool(body.loops)) and not agg_bad, site, f"aggregation through {[x for x in names if x in ('max', 'fold', 'max_by', 'max_by_key')] or 'a loop'}" + (f"; unexpected {agg_bad}" if agg_bad else ""))
+        # the queue read belongs to the id being visited
+        ok_q = True
+        for g in kids + [f]:
+            gb = Body(g); gd = D.Dag(gb)
+            for (b, c) in gb.calls:
+                if c.get("fname") in ("get_unchecked", "index", "get") and len(c["args"]) > 1 and any(q in show(gd.expr(c["args"][0])) for q in ("channels", "receivers", "dispatcher_managers", "subscribers", "senders")):
+                    i_ = strip_casts(gd.expr(c["args"][1]))
+                    while i_[0] == "deref": i_ = strip_casts(i_[1])
+                    if not (i_[0] == "param" or "next" in show(i_) or "used_streams" in show(i_)): ok_q = False
+        ctx.ob("R06.7", f"{k}|reads-the-visited-listener-s-queue", ok_q, site, "the backlog read is that of queues[<the id being visited>]")
+    ctx.floor("R06.7", 15)
 
 
 def check_sweeps(ctx, only=None):
